@@ -40,7 +40,7 @@ Proof.
   - inversion H; subst. exists []. rewrite app_nil_r. split; [reflexivity|]. split; [lia|].
     split; [intros k e []|]. split; [constructor|intros k e []].
   - destruct (dict_get (Z.abs_N (l_z l)) t) as [e0|] eqn:Eg; [|discriminate].
-    set (x := (N.succ key, mkE (e_flag e0) (e_mcnp e0) (l_cls l) (l_aux l))) in *.
+    set (x := (N.succ key, mkE (e_flag e0) (e_mcnp e0) (l_cls l) (l_aux l) (l_sides l))) in *.
     destruct (trcl_lits r (t ++ [x])%list (N.succ key)) as [[[zs0 t0] key0]|] eqn:Er; [|discriminate].
     inversion H; subst zs t0 key0. clear H.
     destruct (IH _ _ _ _ _ Er) as [ext [Ht [Hk [Hr [Hnd Hinh]]]]].
@@ -97,9 +97,7 @@ Proof.
       inversion H; subst cells t2. clear H. eapply IH. exact Ea.
 Qed.
 
-(* the expanded dictionary: the parsed one followed by the copies, all keys
-   distinct, every copy carrying the flag of a parsed card *)
-Theorem expanded_table t cells t' cs :
+Lemma apply_trcls_table t cells t' cs :
   NoDup (map fst t) ->
   apply_trcls cs t (N.succ (max_key t)) = Ok (cells, t') ->
   NoDup (map fst t') /\
@@ -117,17 +115,92 @@ Proof.
     eapply inherits_self; eauto.
 Qed.
 
+(* the implicit surfaces 1000 * cell + surface *)
+Lemma dict_get_none_notin {V} k (d : list (N * V)) : dict_get k d = None -> ~ In k (map fst d).
+Proof.
+  induction d as [|[k' v] r IH]; cbn; [intros _ []|].
+  destruct (N.eqb k k') eqn:E; [discriminate|]. intros H [Hc|Hc].
+  - subst. rewrite N.eqb_refl in E. discriminate.
+  - apply IH; assumption.
+Qed.
+
+Lemma implicit_pass_ext cs ids : forall t t1,
+  implicit_pass cs ids t = Ok t1 -> NoDup (map fst t) ->
+  exists ext, t1 = (t ++ ext)%list /\ NoDup (map fst t1) /\
+    (forall k e, In (k, e) ext -> inherits t e).
+Proof.
+  induction ids as [|n r IH]; intros t t1 H Hnd; cbn in H.
+  - inversion H; subst. exists []. rewrite app_nil_r. split; [reflexivity|].
+    split; [assumption|intros k e []].
+  - destruct (N.ltb n 1000); [eapply IH; eauto|].
+    destruct (dict_get n t) as [x|] eqn:En; [eapply IH; eauto|].
+    destruct (find_cell (N.div n 1000) cs) as [c|]; [|discriminate].
+    destruct (dict_get (N.modulo n 1000) t) as [e0|] eqn:Es; [|discriminate].
+    assert (exists e1, e_flag e1 = e_flag e0 /\ e_mcnp e1 = e_mcnp e0 /\
+                       implicit_pass cs r (t ++ [(n, e1)])%list = Ok t1) as [e1 [Hf0 [Hm0 H']]].
+    { destruct (negb (tc_trcl c)); [exists e0; auto|].
+      destruct (dict_get (N.modulo n 1000) (tc_impl c)) as [d|]; [|discriminate].
+      eexists. split; [|split; [|exact H]]; reflexivity. }
+    clear H. rename H' into H.
+    set (x := (n, e1)) in *.
+    assert (Hnd' : NoDup (map fst (t ++ [x]))).
+    { rewrite map_app. apply nodup_app; [assumption|cbn; constructor; [intros []|constructor]|].
+      intros y Hy [Hx|[]]. cbn in Hx. subst y. apply (dict_get_none_notin _ _ En). assumption. }
+    destruct (IH _ _ H Hnd') as [ext [Ht [Hn Hi]]].
+    exists (x :: ext). split; [rewrite Ht, <- app_assoc; reflexivity|]. split; [assumption|].
+    assert (Hx0 : inherits t (snd x)).
+    { exists (N.modulo n 1000), e0. split; [apply dict_get_In; assumption|]. cbn. auto. }
+    intros k e [Hx|Hx]; [assert (e = snd x) as -> by (rewrite Hx; reflexivity); exact Hx0|].
+    destruct (Hi k e Hx) as [k1 [e2 [Hin1 [Hf1 Hm1]]]].
+    apply in_app_or in Hin1. destruct Hin1 as [Hin1|[Hin1|[]]].
+    + exists k1, e2. auto.
+    + assert (He1 : e2 = snd x) by (rewrite Hin1; reflexivity). rewrite He1 in Hf1, Hm1.
+      destruct Hx0 as [k2 [e3 [H2 [Hf2 Hm2]]]]. exists k2, e3. split; [assumption|].
+      split; congruence.
+Qed.
+
+Lemma expand_table_unfold cs t cells t' :
+  expand_table cs t = Ok (cells, t') ->
+  exists t1, implicit_pass cs (implicit_ids cs) t = Ok t1 /\
+    apply_trcls cs t1 (N.succ (max_key t1)) = Ok (cells, t').
+Proof.
+  unfold expand_table. destruct (implicit_pass cs (implicit_ids cs) t) as [t1|]; [|discriminate].
+  destruct t1 as [|x r]; [discriminate|]. intros H. exists (x :: r). auto.
+Qed.
+
+(* the expanded dictionary: the parsed one followed by the implicit surfaces
+   and the copies, all keys distinct, every addition carrying the flag (and
+   part count) of a parsed card *)
+Theorem expanded_table t cells t' cs :
+  NoDup (map fst t) ->
+  expand_table cs t = Ok (cells, t') ->
+  NoDup (map fst t') /\
+  (forall k e, In (k, e) t -> In (k, e) t') /\
+  (forall k e, In (k, e) t' -> inherits t e).
+Proof.
+  intros Hnd H. destruct (expand_table_unfold _ _ _ _ H) as [t1 [Hi Ha]].
+  destruct (implicit_pass_ext _ _ _ _ Hi Hnd) as [ext [Ht1 [Hnd1 Hinh1]]].
+  destruct (apply_trcls_table _ _ _ _ Hnd1 Ha) as [Hnd' [Hsub Hinh]].
+  split; [assumption|]. split.
+  - intros k e Hin. apply Hsub. rewrite Ht1. apply in_or_app. left. assumption.
+  - intros k e Hin. destruct (Hinh k e Hin) as [k1 [e1 [Hin1 [Hf Hm]]]].
+    rewrite Ht1 in Hin1. apply in_app_or in Hin1. destruct Hin1 as [Hin1|Hin1].
+    + exists k1, e1. auto.
+    + destruct (Hinh1 k1 e1 Hin1) as [k2 [e2 [Hin2 [Hf2 Hm2]]]].
+      exists k2, e2. split; [assumption|]. split; congruence.
+Qed.
+
 (* each literal of a cell with TRCL becomes the fresh key of a copy that
    carries the flag of the surface it names and the transformed descriptor *)
 Lemma trcl_lits_lit ls : forall t key zs t' key' l,
   trcl_lits ls t key = Ok (zs, t', key') -> In l ls ->
   exists e k', dict_get (Z.abs_N (l_z l)) t' = Some e /\
-    In (k', mkE (e_flag e) (e_mcnp e) (l_cls l) (l_aux l)) t' /\
+    In (k', mkE (e_flag e) (e_mcnp e) (l_cls l) (l_aux l) (l_sides l)) t' /\
     In (sign_key (l_z l) k') zs /\ (key < k')%N.
 Proof.
   induction ls as [|l0 r IH]; intros t key zs t' key' l H Hin; [destruct Hin|]. cbn in H.
   destruct (dict_get (Z.abs_N (l_z l0)) t) as [e0|] eqn:Eg; [|discriminate].
-  set (x := (N.succ key, mkE (e_flag e0) (e_mcnp e0) (l_cls l0) (l_aux l0))) in *.
+  set (x := (N.succ key, mkE (e_flag e0) (e_mcnp e0) (l_cls l0) (l_aux l0) (l_sides l0))) in *.
   destruct (trcl_lits r (t ++ [x])%list (N.succ key)) as [[[zs0 t0] key0]|] eqn:Er; [|discriminate].
   inversion H; subst zs t0 key0. clear H.
   destruct (trcl_lits_ext _ _ _ _ _ _ Er) as [ext [Ht _]].
@@ -146,14 +219,12 @@ Qed.
 Lemma run_t_unfold cfg cards tcells out :
   run_t cfg cards tcells = Ok out ->
   exists t cells t', parse_cards cards [] = Ok t /\
-    apply_trcls tcells t (N.succ (max_key t)) = Ok (cells, t') /\
+    expand_table tcells t = Ok (cells, t') /\
     finish cfg t' (converted cells) = Ok out.
 Proof.
   unfold run_t. destruct (parse_cards cards []) as [t|] eqn:Ep; [|discriminate].
-  destruct t as [|x r]; [discriminate|].
-  destruct (apply_trcls tcells (x :: r) (N.succ (max_key (x :: r)))) as [[cells t']|] eqn:Ea;
-    [|discriminate].
-  intros H. exists (x :: r), cells, t'. auto.
+  destruct (expand_table tcells t) as [[cells t']|] eqn:Ea; [|discriminate].
+  intros H. exists t, cells, t'. auto.
 Qed.
 
 (* the main statement with TRCL, no guard: for every flagged entry of the
@@ -162,11 +233,12 @@ Qed.
 Theorem bc_designates_present_same_locus_trcl cfg cards tcells t cells t' surfs bcs k e :
   skip_bc cfg = false ->
   parse_cards cards [] = Ok t ->
-  apply_trcls tcells t (N.succ (max_key t)) = Ok (cells, t') ->
+  expand_table tcells t = Ok (cells, t') ->
   run_t cfg cards tcells = Ok (surfs, bcs) ->
   In (k, e) t' -> (e_flag e = "*" \/ e_flag e = "+") ->
   (exists c, In c (converted cells) /\
-             survives (negb (skip_dedup cfg)) (number_items t') c /\ bounds c k) ->
+             survives (negb (skip_dedup cfg)) (number_items t') (matching_of t') c /\
+             names c k) ->
   let k' := rep (negb (skip_dedup cfg)) (number_items t') k in
   In (kind_of (e_flag e), k') bcs /\ count_key k' bcs = 1%nat /\ In (k', e_first e) surfs.
 Proof.
@@ -184,7 +256,7 @@ Qed.
 Theorem bc_entries_designate_written_trcl cfg cards tcells t cells t' surfs bcs :
   skip_bc cfg = false ->
   parse_cards cards [] = Ok t ->
-  apply_trcls tcells t (N.succ (max_key t)) = Ok (cells, t') ->
+  expand_table tcells t = Ok (cells, t') ->
   run_t cfg cards tcells = Ok (surfs, bcs) ->
   NoDup (map snd bcs) /\
   forall kd k', In (kd, k') bcs ->
@@ -200,6 +272,23 @@ Proof.
   destruct (finish_sound _ _ _ _ _ Hs Hnd' Hfin) as [Hn Hall]. split; [assumption|].
   intros kd k' Hin. destruct (Hall kd k' Hin) as [k [e [He [Hf [H1 [H2 [Hr Hsf]]]]]]].
   exists k, e. split; [assumption|]. split; [eauto|]. auto.
+Qed.
+
+(* every designated number is a surface number of the expanded dictionary;
+   the auxiliary sub-surfaces (numbered above all of them) carry no entry *)
+Theorem bc_designates_keys_trcl cfg cards tcells t cells t' surfs bcs kd k' :
+  skip_bc cfg = false ->
+  parse_cards cards [] = Ok t ->
+  expand_table tcells t = Ok (cells, t') ->
+  run_t cfg cards tcells = Ok (surfs, bcs) -> In (kd, k') bcs ->
+  In k' (map fst t') /\ (k' <= max_key t')%N.
+Proof.
+  intros Hs Hp Ha Hrun Hin.
+  destruct (run_t_unfold _ _ _ _ Hrun) as [t0 [cells0 [t0' [Hp0 [Ha0 Hfin]]]]].
+  rewrite Hp in Hp0. inversion Hp0; subst t0. rewrite Ha in Ha0. inversion Ha0; subst cells0 t0'.
+  pose proof (parsed_keys_distinct _ _ Hp) as Hnd.
+  destruct (expanded_table _ _ _ _ Hnd Ha) as [Hnd' _].
+  eapply finish_designates_keys; eauto.
 Qed.
 
 (* no flagged card: no entry, whatever the cells and their TRCL *)
@@ -233,11 +322,9 @@ Theorem macrobody_flag_stops_run_t cfg cards tcells t k e :
   exists err, run_t cfg cards tcells = Err err.
 Proof.
   intros Hs Hp Hin Hf Hm. unfold run_t. rewrite Hp.
-  destruct t as [|x r]; [destruct Hin|].
-  destruct (apply_trcls tcells (x :: r) (N.succ (max_key (x :: r)))) as [[cells t']|] eqn:Ea;
-    [|eauto].
-  destruct (apply_trcls_ext _ _ _ _ _ Ea) as [ext [Ht _]].
-  eapply macrobody_flag_stops_finish; eauto. rewrite Ht. apply in_or_app. left. exact Hin.
+  destruct (expand_table tcells t) as [[cells t']|] eqn:Ea; [|eauto].
+  destruct (expanded_table _ _ _ _ (parsed_keys_distinct _ _ Hp) Ea) as [_ [Hsub _]].
+  eapply macrobody_flag_stops_finish; eauto.
 Qed.
 
 (* coincident surfaces (cards or copies) flagged differently, representative
@@ -245,7 +332,7 @@ Qed.
 Theorem conflicting_flags_rejected_trcl cfg cards tcells t cells t' surfs k1 e1 k2 e2 :
   skip_bc cfg = false ->
   parse_cards cards [] = Ok t -> proper t ->
-  apply_trcls tcells t (N.succ (max_key t)) = Ok (cells, t') ->
+  expand_table tcells t = Ok (cells, t') ->
   geometry (negb (skip_dedup cfg)) t' (converted cells) = Ok surfs ->
   In (k1, e1) t' -> e_flag e1 = "*" -> In (k2, e2) t' -> e_flag e2 = "+" ->
   rep (negb (skip_dedup cfg)) (number_items t') k1 =
@@ -259,10 +346,8 @@ Proof.
   assert (Hpr' : proper t').
   { intros k e Hin. destruct (Hinh k e Hin) as [k0 [e0 [Hin0 [Hf Hm]]]].
     rewrite Hf, Hm. eapply Hpr; eauto. }
-  unfold run_t. rewrite Hp. destruct t as [|x r].
-  - cbn in Ha. exfalso. destruct (apply_trcls_ext _ _ _ _ _ Ha) as [ext [Ht [_ [_ Hi]]]].
-    cbn in Ht. subst t'. destruct (Hi _ _ H1) as [k0 [e0 [[] _]]].
-  - rewrite Ha. eapply (finish_conflict cfg t' (converted cells) surfs k1 e1 k2 e2); assumption.
+  unfold run_t. rewrite Hp, Ha.
+  eapply (finish_conflict cfg t' (converted cells) surfs k1 e1 k2 e2); assumption.
 Qed.
 
 (* every literal of a cell with TRCL gets a copy in the dictionary that
@@ -272,16 +357,18 @@ Theorem trcl_copy_in_table cfg cards tcells out c l :
   In c tcells -> tc_trcl c = true -> In l (tc_lits c) ->
   exists t cells t' e k',
     parse_cards cards [] = Ok t /\
-    apply_trcls tcells t (N.succ (max_key t)) = Ok (cells, t') /\
+    expand_table tcells t = Ok (cells, t') /\
     dict_get (Z.abs_N (l_z l)) t' = Some e /\
-    In (k', mkE (e_flag e) (e_mcnp e) (l_cls l) (l_aux l)) t'.
+    In (k', mkE (e_flag e) (e_mcnp e) (l_cls l) (l_aux l) (l_sides l)) t'.
 Proof.
   intros Hrun Hc Htr Hl.
   destruct (run_t_unfold _ _ _ _ Hrun) as [t [cells [t' [Hp [Ha Hfin]]]]].
   exists t, cells, t'.
   assert (Hcopy : exists e k', dict_get (Z.abs_N (l_z l)) t' = Some e /\
-            In (k', mkE (e_flag e) (e_mcnp e) (l_cls l) (l_aux l)) t').
-  { clear Hfin Hp Hrun. remember (N.succ (max_key t)) as key eqn:Hk. clear Hk.
+            In (k', mkE (e_flag e) (e_mcnp e) (l_cls l) (l_aux l) (l_sides l)) t').
+  { destruct (expand_table_unfold _ _ _ _ Ha) as [t1 [_ Ha1]].
+    clear Hfin Hp Hrun Ha. remember (N.succ (max_key t1)) as key eqn:Hk. clear Hk.
+    rename Ha1 into Ha. clear t. rename t1 into t.
     revert key t cells t' Ha.
     induction tcells as [|c0 r IH]; intros key t cells t' Ha; [destruct Hc|]. cbn in Ha.
     destruct Hc as [->|Hc].
@@ -305,41 +392,59 @@ Qed.
 
 (* *2 PX 0 (class 7) used only by a cell with TRCL=(1 0 0) (copy 7: class 8) *)
 Definition w_trcl_cards : list scard :=
-  [mkS "1" 1 5 []; mkS "4" 1 9 []; mkS "*2" 1 7 []].
+  [mkS "1" 1 5 [] []; mkS "4" 1 9 [] []; mkS "*2" 1 7 [] []].
 Definition w_trcl_cells : list tcell :=
-  [mkC 1 true true [mkL (-1) 15 []; mkL 2 8 []; mkL (-4) 9 []]].
+  [mkC 1 true true [mkL (-1) 15 [] []; mkL 2 8 [] []; mkL (-4) 9 [] []] []].
 
 (* *2 PX 0 used by a cell with TRCL=(0 0 0) and by a plain cell *)
 Definition w_copy_cards : list scard :=
-  [mkS "1" 1 5 []; mkS "4" 1 9 []; mkS "*2" 1 7 []].
+  [mkS "1" 1 5 [] []; mkS "4" 1 9 [] []; mkS "*2" 1 7 [] []].
 Definition w_copy_cells : list tcell :=
-  [mkC 1 true true [mkL (-1) 5 []; mkL 2 7 []; mkL (-4) 9 []];
-   mkC 3 true false [mkL (-1) 0 []; mkL (-2) 0 []]].
+  [mkC 1 true true [mkL (-1) 5 [] []; mkL 2 7 [] []; mkL (-4) 9 [] []] [];
+   mkC 3 true false [mkL (-1) 0 [] []; mkL (-2) 0 [] []] []].
 
 (* ---- decks without TRCL -------------------------------------------------- *)
 
-(* a converted cell card without TRCL *)
-Definition plain (c : cell) : tcell :=
-  mkC (fst c) true false (map (fun z => mkL z 0 []) (snd c)).
+(* a converted cell card without TRCL (an intersection of literals), and the
+   one-part cell it becomes *)
+Definition plain (c : N * list Z) : tcell :=
+  mkC (fst c) true false (map (fun z => mkL z 0 [] []) (snd c)) [].
+Definition one_part (c : N * list Z) : cell := (fst c, [snd c]).
 
-Lemma apply_trcls_plain cells : forall t key,
-  apply_trcls (map plain cells) t key = Ok (map (fun c => (true, c)) cells, t).
+Lemma apply_trcls_plain cs : forall t key,
+  apply_trcls (map plain cs) t key = Ok (map (fun c => (true, one_part c)) cs, t).
 Proof.
-  induction cells as [|[i zs] r IH]; intros t key; cbn; [reflexivity|].
+  induction cs as [|[i zs] r IH]; intros t key; cbn; [reflexivity|].
   rewrite IH. rewrite map_map. cbn. rewrite map_id. reflexivity.
 Qed.
 
-Lemma converted_plain cells : converted (map (fun c => (true, c)) cells) = cells.
+Lemma converted_plain cs :
+  converted (map (fun c => (true, one_part c)) cs) = map one_part cs.
 Proof.
-  unfold converted. induction cells as [|c r IH]; cbn; [reflexivity|]. f_equal. exact IH.
+  unfold converted. induction cs as [|c r IH]; cbn; [reflexivity|]. f_equal. exact IH.
 Qed.
 
-(* [run] is [run_t] on decks whose cells are all converted and carry no TRCL *)
-Theorem run_t_plain cfg cards cells :
-  run_t cfg cards (map plain cells) = run cfg cards cells.
+Lemma implicit_pass_small cs ids : forall t,
+  (forall n, In n ids -> (n < 1000)%N) -> implicit_pass cs ids t = Ok t.
 Proof.
-  unfold run_t, run. destruct (parse_cards cards []) as [t|]; [|reflexivity].
-  destruct t as [|x r]; [reflexivity|].
-  rewrite apply_trcls_plain, converted_plain. reflexivity.
+  induction ids as [|n r IH]; intros t H; cbn; [reflexivity|].
+  assert (Hn : N.ltb n 1000 = true) by (apply N.ltb_lt; apply H; left; reflexivity).
+  rewrite Hn. apply IH. intros x Hx. apply H. right. assumption.
 Qed.
 
+(* [run] is [run_t] on decks whose cells are all converted, carry no TRCL and
+   name no surface as 1000 * cell + surface *)
+Theorem run_t_plain cfg cards cs :
+  (forall c z, In c cs -> In z (snd c) -> (Z.abs_N z < 1000)%N) ->
+  run_t cfg cards (map plain cs) = run cfg cards (map one_part cs).
+Proof.
+  intros Hsmall. unfold run_t, run. destruct (parse_cards cards []) as [t|]; [|reflexivity].
+  unfold expand_table. rewrite implicit_pass_small.
+  - destruct t as [|x r]; [reflexivity|].
+    rewrite apply_trcls_plain, converted_plain. reflexivity.
+  - intros n Hn. unfold implicit_ids in Hn. apply (proj1 (sort_uniq_in _ _)) in Hn.
+    apply in_flat_map in Hn. destruct Hn as [tc [Htc Hn]].
+    apply in_map_iff in Htc. destruct Htc as [c [<- Hc]]. cbn in Hn.
+    rewrite map_map in Hn. cbn in Hn. apply in_map_iff in Hn. destruct Hn as [z [<- Hz]].
+    eapply Hsmall; eauto.
+Qed.
